@@ -143,11 +143,11 @@ PROPS["C06"] = {
 PROPS["C12"] = {
     "level": "proof",
     "tools": ["examples/add-sidx"],
-    "technique": "Lean 4 proof (grouping state machine: every moof in exactly one fragment of one segment, in order, for every delimiter configuration; sidx tiling arithmetic) + model-vs-code correspondence on generated fragmented files",
-    "level_text": "Model lean/Mp4ff/Model/Segments.lean transcribes File.AddChild (styp/sidx/emsg/moof/mdat) and startSegmentIfNeeded (sidx references counted over all top-level sidx boxes from their anchor points, tfra offsets, start-on-moof, default); theorems in Props/C12.lean; tie = the grouping of every generated file (all delimiter kinds incl. references spread over 2..4 top-level sidx boxes with/without a parent index, x both flags; sidx-delimited files also with a disturbed index) is computed by model and code and compared, plus direct oracles: segment-mode re-encoding byte-identical, and after UpdateSidx+Encode the written index is parsed independently and checked to tile the written media with the reference track's durations.",
-    "level_note": "Trusted: Lean kernel, allowed axioms, transcription validated by correspondence; findSegmentData/fillSidx/insertSidx are exercised by the direct oracle (independent sidx parser).",
-    "trusted": ["Model/Segments.lean hand transcription of mp4/file.go AddChild + startSegmentIfNeeded"],
-    "unmodelled": ["UpdateSidx internals (findSegmentData, fillSidx, insertSidx) and the examples/add-sidx tool (built from the working tree on every run; options -removeEnc, -nzEPT, -startSegOnMoof): direct oracle on the written file"],
+    "technique": "Lean 4 proof (grouping state machine: every moof in exactly one fragment of one segment, in order, for every delimiter configuration; sidx tiling arithmetic; MediaSegment.Size of the grouped segments = their written extent and a new index sits at the first byte of the first segment, by an invariant of File.AddChild) + model-vs-code correspondence on generated fragmented files and API modification histories",
+    "level_text": "Model lean/Mp4ff/Model/Segments.lean transcribes File.AddChild (styp/sidx/emsg/moof/mdat) and startSegmentIfNeeded (sidx references counted over all top-level sidx boxes from their anchor points, tfra offsets, start-on-moof, default), and what UpdateSidx computes from the segments (Fragment.Size, MediaSegment.Size, MediaSegment.FirstBox, insertSidx's placement, first_offset) also after Fragment.AddEmsg / Fragment.AddChild / MediaSegment.AddFragment / File.AddMediaSegment / a styp set on a segment; theorems in Props/C12.lean; tie = the grouping of every generated file (all delimiter kinds incl. references spread over 2..4 top-level sidx boxes with/without a parent index, x both flags; sidx-delimited files also with a disturbed index) is computed by model and code and compared, and so are the referenced sizes, first_offset and the place of a new index after UpdateSidx on decoded files modified through the public API (usidx lines), plus direct oracles: segment-mode re-encoding byte-identical, and after UpdateSidx+Encode the written index is parsed independently and checked to tile the written media with the reference track's durations - for unmodified files, for files modified through the public API (segment mode) and for box-tree-mode output, through Encode and EncodeSW.",
+    "level_note": "Trusted: Lean kernel, allowed axioms, transcription validated by correspondence; the sizes and placement part of findSegmentData/fillSidx/insertSidx is modelled and compared, their durations/EPT part is exercised by the direct oracle (independent sidx parser).",
+    "trusted": ["Model/Segments.lean hand transcription of mp4/file.go AddChild + startSegmentIfNeeded + the size/placement part of UpdateSidx (mediasegment.go Size/FirstBox, fragment.go Size/AddEmsg/AddChild)"],
+    "unmodelled": ["durations and earliest presentation time in UpdateSidx (findSegmentData over the reference track), segment-level sidx boxes in MediaSegment.Size, the encoders (what Encode/EncodeSW write in either mode: direct oracle on the written bytes), and the examples/add-sidx tool (built from the working tree on every run; options -removeEnc, -nzEPT, -startSegOnMoof): direct oracle on the written file"],
     "partial": [],
     "assumptions": ["single-run fragments carry the canonical data offset (fragments produced by the library)"],
 }
